@@ -112,5 +112,9 @@ def evaluate(ctx, aspect, names=None):
             _, _, A, B = build(name)
             for (a, b) in MOMS:
                 ma, mb, mu, mi, md, mx = (m(S, a, b) for S in (A, B, results["or"], results["and"], results["sub"], results["xor"]))
-                ok = (mu + mi == ma + mb) and (md == ma - mi) and (mx == mu - mi)
+                if name.startswith("float-"):
+                    tol = 1e-5 * max(1e-12, max(abs(float(v)) for v in (ma, mb, mu, mi, md, mx)))
+                    ok = abs(mu + mi - ma - mb) <= tol and abs(md - (ma - mi)) <= tol and abs(mx - (mu - mi)) <= tol
+                else:
+                    ok = (mu + mi == ma + mb) and (md == ma - mi) and (mx == mu - mi)
                 ctx.check(ok, "degenerate pair: inclusion-exclusion identities", {"pair": name, "a": a, "b": b}, None, [str(v) for v in (ma, mb, mu, mi, md, mx)], sig=sig(name, "measure"))
